@@ -3,6 +3,7 @@ package core
 import (
 	"bytes"
 	"fmt"
+	"reflect"
 	"sort"
 
 	"github.com/mlange-42/arche/ecs"
@@ -20,9 +21,15 @@ type WB struct {
 	Regs []*Compiled        // slot -> registered filter
 	Rec  *Recorder          // event recorder, nil if no listener is installed
 
+	ResIDs [NumRes]ecs.ResID
+	ResPtr [NumRes]any // the pointer handed to Resources.Add
+
 	masks    map[uint32]ecs.Mask
 	probeIDs []ecs.ID // registered IDs that no entity ever carries
 }
+
+// ResType returns the k-th resource type.
+func ResType(k int) reflect.Type { return reflect.ArrayOf(20000+k, reflect.TypeOf(byte(0))) }
 
 // Compiled is a filter expression compiled for one world.
 type Compiled struct {
@@ -37,6 +44,9 @@ func NewWB(name string, u *Universe) *WB {
 	b := &WB{Name: name, U: u, Ord: map[ecs.Entity]int{}, masks: map[uint32]ecs.Mask{}}
 	b.W = u.NewWorld()
 	b.IDs = u.Register(b.W)
+	for k := 0; k < NumRes; k++ {
+		b.ResIDs[k] = ecs.ResourceTypeID(b.W, ResType(k))
+	}
 	active := map[int]bool{}
 	for _, id := range u.IDs {
 		active[id] = true
@@ -229,6 +239,19 @@ func (b *WB) Verify(m *Model, o VerifyOpts) error {
 		ids[h.ID()] = true
 		if err := b.verifyEntity(m, ord, o); err != nil {
 			return err
+		}
+	}
+	for k := 0; k < NumRes; k++ {
+		has := w.Resources().Has(b.ResIDs[k])
+		got := w.Resources().Get(b.ResIDs[k])
+		if has != m.Res[k] {
+			return fmt.Errorf("%s: Resources.Has(resource %d)=%v, model says %v", b.Name, k, has, m.Res[k])
+		}
+		if m.Res[k] && got != b.ResPtr[k] {
+			return fmt.Errorf("%s: Resources.Get(resource %d) is not the pointer that was added", b.Name, k)
+		}
+		if !m.Res[k] && got != nil {
+			return fmt.Errorf("%s: Resources.Get(resource %d) is not nil although the resource is absent", b.Name, k)
 		}
 	}
 	if o.Scan {
